@@ -47,6 +47,7 @@ fn main() {
             match prop {
                 "C11" => c11::gen(tier, seed, &mut out),
                 "SM" => small::gen(tier, seed, &mut out),
+                "C03API" => c03::gen_api(tier, seed, &mut out),
                 "C06" => c06::gen(tier, seed, &mut out),
                 "C03" => c03::gen(tier, seed, &mut out),
                 "C18" => c18::gen(tier, seed, &mut out),
